@@ -50,8 +50,10 @@ func New(name string, probe Probe, onCheckEnd func(bool, bool, string)) (*Prober
 }
 
 func (p *Prober) Start() {
+	// cleared before the goroutine is spawned: a Stop() that follows Start() must
+	// not be undone by the goroutine when it gets to run
+	p.stopped.Store(false)
 	go func() {
-		p.stopped.Store(false)
 		time.Sleep(time.Duration(p.probe.InitialDelay) * time.Second)
 		if p.stopped.Load() {
 			return
